@@ -1,7 +1,7 @@
 \* C03 conservation, unit footprint sum, halo = zero padding -- thorough
 CONSTANTS
   ShiftStyle = "pad" LevelStyle = "match" TruncStyle = "exact" AnalyticStyle = "outer" BCubic = "plus"
-  Sizes = {202, 302, 403, 304}
+  Sizes = {202, 302, 403, 304, 502, 205}
   Cells = {11, 23, 32}
   Halos = {99, 0, 1, 2, 3, 4, 6}
   ModeSet = {202, 402, 204, 1212}
